@@ -181,16 +181,21 @@ def rule_polymod(ctx, repo):
     cc = repo.get_function(SA + 'bech32_create_checksum')
     h_, d_ = cc.params[:2]
     rv = common.returned_value(cc)
-    m1 = common.value_match(repo, cc, rv, '[(bech32_polymod(bech32_hrp_expand(%s) + %s + [0, 0, 0, 0, 0, 0]) ^ 1) >> 5 * (5 - i) & 31 for i in range(6)]' % (h_, d_))
-    m2 = common.value_match(repo, cc, rv, '[(bech32_polymod(bech32_hrp_expand(%s) + %s + [0] * 6) ^ 1) >> shift & 31 for shift in range(25, -5, -5)]' % (h_, d_))
-    m3 = common.value_match(repo, cc, rv, '[(bech32_polymod(bech32_hrp_expand(%s) + %s + [0] * 6) ^ 1) >> 5 * (5 - i) & 31 for i in range(6)]' % (h_, d_))
-    if 'same' in (m1, m2, m3):
+    # decided by unrolling: the comprehension is evaluated symbolically over its (constant) iteration domain and every
+    # element brought to the arithmetic normal form, so `5 * (5 - i)`, `25 - 5 * i`, a descending range of shifts, `& 31`
+    # / `% 32` / `& 0x1f` and `[0] * 6` all read alike
+    ref = '[(bech32_polymod(bech32_hrp_expand(%s) + %s + [0, 0, 0, 0, 0, 0]) ^ 1) >> 5 * (5 - i) & 31 for i in range(6)]' % (h_, d_)
+    want = unrolled(repo, cc, ast.parse(ref, mode='eval').body)
+    got = unrolled(repo, cc, common.resolved(cc, rv, repo)) if rv is not None else None
+    shown = ast.unparse(common.resolved(cc, rv, repo))[:160] if rv is not None else None
+    if got is None:
+        r.undecided('create', cc.site, 'checksum creation is written as `%s`' % shown)
+    elif got == want:
         r.ok('create', cc.site, 'polymod(values + six zeros) ^ 1, six 5-bit groups')
-    elif m1 == 'near':
-        r.violated('create', cc.site, 'checksum creation is `%s`; BIP173: polymod(expand(hrp) + data + [0]*6) ^ 1 split into six 5-bit groups, most significant first'
-                   % (ast.unparse(common.resolved(cc, rv, repo))[:160] if rv is not None else None))
     else:
-        r.undecided('create', cc.site, 'checksum creation is written as `%s`' % (ast.unparse(common.resolved(cc, rv, repo))[:160] if rv is not None else None))
+        diff = [k for k in range(min(len(got), len(want))) if got[k] != want[k]]
+        r.violated('create', cc.site, 'checksum creation is `%s`: %s; BIP173: polymod(expand(hrp) + data + [0]*6) ^ 1 split into six 5-bit groups, most significant first'
+                   % (shown, ('%d groups instead of 6' % len(got)) if len(got) != len(want) else ('group %d is `%s`, BIP173 `%s`' % (diff[0], got[diff[0]][:80], want[diff[0]][:80]))))
     be = repo.get_function(SA + 'bech32_encode')
     h_, d_ = be.params[:2]
     rv = common.returned_value(be)
@@ -203,6 +208,37 @@ def rule_polymod(ctx, repo):
         r.violated('encode-string', be.site, 'bech32_encode builds `%s`; BIP173: hrp + "1" + characters of data + checksum' % (ast.unparse(common.resolved(be, rv, repo))[:160] if rv is not None else None))
     else:
         r.undecided('encode-string', be.site, 'bech32_encode builds `%s`' % (ast.unparse(common.resolved(be, rv, repo))[:160] if rv is not None else None))
+
+
+def unrolled(repo, fi, e):
+    """[canonical text of each element] of a list comprehension with one generator over a constant range / tuple, or of
+    a list display; None when it is something else"""
+    from ..restore import NF
+    from ..rules import canon_arith
+
+    def ca(x):
+        x = NF().visit(ast.parse(ast.unparse(x), mode='eval').body)
+        try:
+            return str(canon_arith(x))
+        except Exception:
+            return norm(x)
+    if isinstance(e, ast.List):
+        return [ca(x) for x in e.elts]
+    if not (isinstance(e, ast.ListComp) and len(e.generators) == 1 and not e.generators[0].ifs and isinstance(e.generators[0].target, ast.Name)):
+        return None
+    dom = repo.fold(e.generators[0].iter, fi.module, cls=fi.cls)
+    if isinstance(dom, range):
+        dom = list(dom)
+    if not isinstance(dom, (list, tuple)) or len(dom) > 64 or not all(isinstance(v, int) for v in dom):
+        return None
+    var = e.generators[0].target.id
+    out = []
+    for v in dom:
+        class S(ast.NodeTransformer):
+            def visit_Name(self, n):
+                return ast.copy_location(ast.Constant(value=int(v)), n) if n.id == var and isinstance(n.ctx, ast.Load) else n
+        out.append(ca(S().visit(ast.parse(ast.unparse(e.elt), mode='eval').body)))
+    return out
 
 
 def reject_outcomes(repo, fi):
